@@ -6,6 +6,8 @@ R2  colvarscript::run null-checks by-name look-ups before dispatching object-lev
     command look-ups check end()
 R3  script entry points that change the model go through the same module functions as the file path
 R4  (shared with C08-R6) energy added by script callbacks reaches the engine
+R5  (shared with C07-R5) script-driven component changes recompute the normalisation cache
+R6  reported atomic gradients include the fit term under the same flag as the applied forces
 """
 from . import expr as X
 from . import cond as C
@@ -290,3 +292,10 @@ def run(F, rep, tier):
     # configuration-file path
     from . import rules_c07
     rules_c07.norm_cache(F, rep, "C20-R5")
+    # the atomic gradients handed to scripts are assembled from the same pieces, under the same flags, as the forces
+    from . import rules_c01
+    rep.rule("C20-R6", "atomic gradients returned by `getgradients` include the fit term exactly when the forces do: "
+                       "cvc::collect_gradients() reads fit_gradients under f_ag_fit_gradients and under no other feature "
+                       "(a group fitted on itself carries the term too; f_ag_fitting_group only selects which group)")
+    rules_c01.fit_consumers(F, rep, "C20-R6", (
+        ("colvar::cvc::collect_gradients", lambda f: [x for x in f.walk() if x["k"] == "MemberExpr" and x.get("n") == "fit_gradients"]),))
